@@ -39,7 +39,7 @@ func c01load(g *Gen, i int, prog []GenPkg) (types.Universe, error) {
 func c06sigTypes(s *types.Signature) []*types.Type {
 	return append(append([]*types.Type{}, s.Parameters...), s.Results...)
 }
-func c06nameOf(s string) types.Name              { return parser.TcNameToName(s) }
+func c06nameOf(s string) types.Name            { return parser.TcNameToName(s) }
 func c20comparable(t *types.Type) (bool, bool) { return false, false }
 
 func c05load(g *Gen, i int, path string, files map[string]string, names []string) (types.Universe, error) {
@@ -166,3 +166,6 @@ func c06loadInto(g *Gen, i int, prog []GenPkg, u *types.Universe) error {
 
 // c11dirOf: where the loader says the package lives on disk
 func c11dirOf(p *types.Package) string { return p.SourcePath }
+
+// (v2 only: the v1 builder makes its universe from everything it was given)
+func c06secondUniverse(g *Gen, i int, prog []GenPkg) ([]string, bool) { return nil, false }
